@@ -59,7 +59,7 @@ example : checkedSize [0, 4294967296, 4294967296] = none ∧ checkedSize [429496
 
 /-- cli_no_output_on_reject: `view`, `fold` and `stat` read the whole input before anything is written: a rejected input
     gives exit status 1 and empty stdout. -/
-theorem cli_no_output_on_reject (compute : List Nat × List Nat → Option (List Nat)) (bytes : List Nat) (e : IoErr)
+theorem cli_no_output_on_reject (compute : List Nat × List Nat → Except (List Nat) (List Nat)) (bytes : List Nat) (e : IoErr)
     (h : readSpectrum bytes = .error e) :
     (specCli compute bytes).code = 1 ∧ (specCli compute bytes).stdout = [] := by
   simp only [specCli, h, and_self]
